@@ -134,6 +134,20 @@ def gen_trace_program(rng):
             emit("}")
             frames.append(("%s()" % name, ln))
             callee = "%s()" % name
+        elif k == 0 and rng.chance(1, 2):
+            # lambdas that capture locals are created before the statement of interest (their Closure instruction carries operand
+            # bytes per captured variable: every byte needs its line-table entry or later lines shift)
+            name = "f%d" % uid
+            emit("fn %s() {" % name)
+            emit("    var cap%da = %d;" % (uid, uid))
+            emit("    var cap%db = %d;" % (uid, uid + 1))
+            emit("    var lam%d = || cap%da + cap%db;" % (uid, uid, uid))
+            emit("    var lam%dx = |q| q + cap%da;" % (uid, uid))
+            ln = emit("    " + body_stmt)
+            emit("    return lam%d() + lam%dx(1);" % (uid, uid))
+            emit("}")
+            frames.append(("%s()" % name, ln))
+            callee = "%s()" % name
         elif k == 0:
             name = "f%d" % uid
             emit("fn %s() {" % name)
